@@ -17,7 +17,7 @@ Section SFP.
 
   Lemma line_paint_len g tape (lf : @line_feature F) : paint_len (line_to_feature g tape lf).
   Proof.
-    intros q p t blk L. cbn [line_to_feature ft_paint]. unfold lf_paint.
+    intros q wt p t blk L. cbn [line_to_feature ft_paint]. unfold lf_paint.
     destruct (lf_local lf (lf_distances lf q)) as [[[[th tr] tot] cur] nxt].
     destruct p; cbn [width] in *; try reflexivity.
     - (* grains *)
@@ -63,7 +63,7 @@ Section SFP.
 
   Lemma line_no_random g tape (lf : @line_feature F) : line_nonrandom lf -> no_random (line_to_feature g tape lf).
   Proof.
-    intros H q p t blk. cbn [line_to_feature ft_paint]. unfold lf_paint.
+    intros H q wt p t blk. cbn [line_to_feature ft_paint]. unfold lf_paint.
     remember (lf_distances lf q) as pd. unfold lf_local.
     set (cur := nth (pd_segment pd) (nth (pd_section pd) (lf_table lf) []) lseg_default).
     set (nxt := nth (pd_segment pd) (nth (S (pd_section pd)) (lf_table lf) []) lseg_default).
@@ -83,7 +83,7 @@ Section SFP.
 
   Lemma line_paints_tag g tape (lf : @line_feature F) : paints_tag (line_to_feature g tape lf).
   Proof.
-    intros q t blk. cbn [line_to_feature ft_paint ft_tag]. unfold lf_paint.
+    intros q wt t blk. cbn [line_to_feature ft_paint ft_tag]. unfold lf_paint.
     destruct (lf_local lf (lf_distances lf q)) as [[[[th tr] tot] cur] nxt]. reflexivity.
   Qed.
 
